@@ -41,14 +41,22 @@ def main():
     rc, out = sh('git status --porcelain --untracked-files=no', cwd=wt)
     assert out.strip() == '', f'worktree not clean: {out}'
     # demo without the patch
-    rc0, out0 = sh(f'{PY} {demo}', cwd=wt)
+    denv = dict(os.environ, DESPER_REPO=wt)
+    # demonstrations locate the tree under test either through DESPER_REPO or relative to their own
+    # location <worktree>/out/: run them from there
+    (pathlib.Path(wt) / 'out').mkdir(exist_ok=True)
+    local_demo = pathlib.Path(wt) / 'out' / 'seed_demo.py'
+    if pathlib.Path(demo).resolve() != local_demo.resolve():
+        shutil.copy(demo, local_demo)
+    demo_src, demo = demo, str(local_demo)
+    rc0, out0 = sh(f'{PY} {demo}', cwd=wt, env=denv)
     meta['demo_without_patch'] = rc0
     rc, out = sh(f'git apply {patch}', cwd=wt)
     assert rc == 0, f'patch does not apply: {out}'
     try:
         rc, out = sh(f'{PY} -m pytest -q -p no:cacheprovider tests 2>&1 | tail -1', cwd=wt)
         meta['tests_with_patch'] = out.strip()
-        rc1, out1 = sh(f'{PY} {demo}', cwd=wt)
+        rc1, out1 = sh(f'{PY} {demo}', cwd=wt, env=denv)
         meta['demo_with_patch'] = rc1
         meta['demo_output'] = out1.strip().splitlines()[:3]
         confirmed = ('111 passed' in out) and rc0 == 0 and rc1 != 0
@@ -81,8 +89,11 @@ def main():
             run_check('C18', '/repo')
     d = VERIF / 'seeded' / seed_id
     d.mkdir(parents=True, exist_ok=True)
-    shutil.copy(patch, d / 'patch.diff')
-    text = pathlib.Path(demo).read_text()
+    if (d / 'meta.json').exists() and not needs.strip():
+        meta['needs'] = json.loads((d / 'meta.json').read_text()).get('needs', '')
+    if pathlib.Path(patch).resolve() != (d / 'patch.diff').resolve():
+        shutil.copy(patch, d / 'patch.diff')
+    text = pathlib.Path(demo_src).read_text()
     text = re.sub(r'''(['"])/tmp/mut-C\d+\1''', '__import__("os").environ.get("DESPER_REPO", "/repo")', text)
     (d / 'demo.py').write_text(text)
     (d / 'meta.json').write_text(json.dumps(meta, indent=1))
